@@ -14,7 +14,37 @@ KANI_FOR = {
 }
 
 # property -> bounded native stand-in (never counted as proved): the BTOR2 line parser / writer, which the weaver cannot extract
-STANDIN_FOR = {'C01': 'btor2', 'C03': 'btor2', 'C04': 'btor2', 'C05': 'btor2', 'C08': 'btor2', 'C09': 'btor2'}
+FMT_SUITES = ['fmt:' + f for f in ['btor2', 'cnf', 'cnf8', 'wcnf', 'gcnf', 'satlog', 'satlog_ign', 'aag', 'aig']]
+STREAMING = ['fmt:btor2', 'fmt:cnf', 'fmt:cnf8', 'fmt:wcnf', 'fmt:gcnf']
+DIMACS = ['dimacs:cnf', 'dimacs:wcnf', 'dimacs:gcnf']
+AIGER = ['aiger:aag', 'aiger:aig']
+# property -> bounded native stand-in suites (standin/src/*.rs); bounded, never counted as proved
+STANDIN_FOR = {
+    'C01': FMT_SUITES, 'C02': ['reader'], 'C03': [s for s in FMT_SUITES if 'satlog' not in s] + AIGER, 'C04': FMT_SUITES, 'C05': FMT_SUITES,
+    'C06': DIMACS + AIGER, 'C07': DIMACS, 'C08': FMT_SUITES + DIMACS, 'C09': STREAMING + ['reader'], 'C10': ['reader', 'mem'], 'C11': ['writer'],
+    'C12': ['renumber'], 'C13': ['scan'], 'C14': ['reader'], 'C16': ['scan'],
+}
+SUITE_FN = {
+    'fmt:btor2': ('flussab_btor2::parser::Parser::next_line / btor2::Line::write_into', 'flussab-btor2/src/parser.rs'),
+    'fmt:cnf': ('flussab_cnf::cnf::Parser<i32> / write_header / write_clause', 'flussab-cnf/src/cnf.rs'),
+    'fmt:cnf8': ('flussab_cnf::cnf::Parser<i8> with ignore_header', 'flussab-cnf/src/cnf.rs'),
+    'fmt:wcnf': ('flussab_cnf::wcnf::Parser<isize> / writers', 'flussab-cnf/src/wcnf.rs'),
+    'fmt:gcnf': ('flussab_cnf::gcnf::Parser<i16> / writers', 'flussab-cnf/src/gcnf.rs'),
+    'fmt:satlog': ('flussab_cnf::sat_solver_log::parse_log<i32>', 'flussab-cnf/src/sat_solver_log.rs'),
+    'fmt:satlog_ign': ('flussab_cnf::sat_solver_log::parse_log<i32> with ignore_unknown_lines', 'flussab-cnf/src/sat_solver_log.rs'),
+    'fmt:aag': ('flussab_aiger::ascii::Parser<u32>::parse / Writer::write_aig', 'flussab-aiger/src/ascii.rs'),
+    'fmt:aig': ('flussab_aiger::binary::Parser<u16>::parse / Writer::write_ordered_aig', 'flussab-aiger/src/binary.rs'),
+    'dimacs:cnf': ('flussab_cnf::cnf::Parser<i32> on structured documents', 'flussab-cnf/src/cnf.rs'),
+    'dimacs:wcnf': ('flussab_cnf::wcnf::Parser<isize> on structured documents', 'flussab-cnf/src/wcnf.rs'),
+    'dimacs:gcnf': ('flussab_cnf::gcnf::Parser<i16> on structured documents', 'flussab-cnf/src/gcnf.rs'),
+    'aiger:aag': ('flussab_aiger::ascii Parser/Writer on structured values', 'flussab-aiger/src/ascii.rs'),
+    'aiger:aig': ('flussab_aiger::binary Parser/Writer on structured values', 'flussab-aiger/src/binary.rs'),
+    'reader': ('flussab::deferred_reader::DeferredReader (operation sequences against a stream model)', 'flussab/src/deferred_reader.rs'),
+    'writer': ('flussab::deferred_writer::DeferredWriter (operation sequences against a sink model)', 'flussab/src/deferred_writer.rs'),
+    'scan': ('flussab::text scanners against whole-string reference definitions', 'flussab/src/text.rs'),
+    'renumber': ('flussab_aiger::aig::Renumber::renumber_aig on every small circuit', 'flussab-aiger/src/aig.rs'),
+    'mem': ('streaming parsers under a counting allocator', 'flussab/src/deferred_reader.rs'),
+}
 
 LEVELS = {}          # property -> level category (default proof)
 EXPLANATIONS = {}
@@ -47,10 +77,14 @@ def build_standin():
     d = os.path.join(gen, 'standin')
     os.makedirs(os.path.join(d, 'src'), exist_ok=True)
     open(os.path.join(d, 'Cargo.toml'), 'w').write(open(os.path.join(VERIF, 'standin', 'Cargo.toml.in')).read().replace('@REPO@', REPO))
-    shutil.copy(os.path.join(VERIF, 'standin', 'src', 'main.rs'), os.path.join(d, 'src', 'main.rs'))
+    for fn in os.listdir(os.path.join(VERIF, 'standin', 'src')):
+        if fn.endswith('.rs'):
+            src, dst = os.path.join(VERIF, 'standin', 'src', fn), os.path.join(d, 'src', fn)
+            if not os.path.exists(dst) or open(src).read() != open(dst).read():
+                shutil.copy(src, dst)
     if os.path.exists(os.path.join(REPO, 'Cargo.lock')):
         shutil.copy(os.path.join(REPO, 'Cargo.lock'), os.path.join(d, 'Cargo.lock'))
-    tgt = os.path.join(VERIF, 'standin', 'target') if REPO == '/repo' else os.path.join(d, 'target')
+    tgt = os.environ.get('VP_STANDIN_TARGET') or (os.path.join(VERIF, 'standin', 'target') if REPO == '/repo' else os.path.join(d, 'target'))
     env = dict(os.environ, CARGO_NET_OFFLINE='true', CARGO_TARGET_DIR=tgt)
     p = subprocess.run(['cargo', 'build', '--release', '--offline', '-q'], cwd=d, env=env, capture_output=True, text=True, timeout=1800)
     exe = os.path.join(tgt, 'release', 'vp-standin')
@@ -59,37 +93,61 @@ def build_standin():
     return exe, ''
 
 
-def run_standin(prop, tier, seed):
+_BUILT = {}
+
+
+def _built():
+    if 'exe' not in _BUILT:
+        _BUILT['exe'], _BUILT['msg'] = build_standin()
+    return _BUILT['exe'], _BUILT['msg']
+
+
+def run_suite(suite, prop, tier, seed):
     t0 = time.time()
-    name = 'standin:' + STANDIN_FOR[prop]
+    name = 'standin:' + suite
+    fn, path = SUITE_FN[suite]
     er = {'name': name, 'kind': 'bounded', 'status': 'ok', 'reason': '', 'failures': [], 'failures_n': 0, 'cases': 0, 'distinct_nontrivial': 0, 'bound': '', 'samples': []}
-    exe, msg = build_standin()
+    exe, msg = _built()
     if exe is None:
         er.update(status='undecided', reason='the bounded stand-in does not build against this tree (public API changed?): ' + msg, wall_s=time.time() - t0)
         return er
-    p = subprocess.run([exe, prop, tier, str(seed)], capture_output=True, text=True, timeout=3600)
     try:
-        d = json.loads(p.stdout)
+        p = subprocess.run([exe, suite, prop, tier, str(seed)], capture_output=True, text=True, timeout=3600 if tier == 'thorough' else 900)
+    except subprocess.TimeoutExpired:
+        er.update(status='undecided', reason='the bounded stand-in %s did not finish in time' % suite, wall_s=time.time() - t0)
+        return er
+    try:
+        d = json.loads(p.stdout.strip().splitlines()[-1])
     except Exception:
-        er.update(status='undecided', reason='the bounded stand-in produced no result: ' + (p.stderr or '')[-600:], wall_s=time.time() - t0)
+        er.update(status='undecided', reason='the bounded stand-in %s produced no result (exit %s): %s' % (suite, p.returncode, ((p.stderr or '') + (p.stdout or ''))[-600:]), wall_s=time.time() - t0)
         return er
     er.update(cases=d['parser_runs'], distinct_nontrivial=d['distinct_nontrivial'], bound=d['bound'], failures_n=len(d['failures']), wall_s=round(time.time() - t0, 2),
-              samples=[{'note': 'BOUNDED, not a proof: real flussab-btor2 parser/writer run natively on %d distinct inputs' % d['distinct_inputs']}])
+              samples=[{'note': 'BOUNDED, not a proof: the real crates run natively on %d distinct inputs / cases (%d runs) of suite %s' % (d['distinct_inputs'], d['parser_runs'], suite)}])
     seen = set()
     for f in d['failures']:
+        if not f['check'].startswith(prop) and not (prop == 'C14' and f['check'].startswith('C02')):
+            continue            # a suite run for one property reports the checks of that property only
         if f['check'] in seen:
             continue            # one violation per violated check; the replay file carries the first failing input
         seen.add(f['check'])
         er['status'] = 'failed'
         er['failures'].append({
-            'engine': 'standin', 'kind': 'bounded_standin', 'fn': 'flussab_btor2::parser::Parser::next_line / btor2::Line::write_into',
-            'clause': 'standin:btor2::%s' % re.sub(r'[^A-Za-z0-9]+', '_', f['check']).strip('_'), 'tags': [prop],
-            'message': 'bounded stand-in: %s fails on input %r (chunk %s, read size %s, fault at %s): %s' % (f['check'], f['input'], f['chunk'], f['step'], f['fail_at'], f['detail'][:600]),
-            'rendered': json.dumps(f, indent=1)[:3000], 'clause_text': f['check'], 'site': (('flussab-btor2/src/parser.rs', 0), 0),
-            'counterexample': {'input': f['input'], 'input_hex': f['input_hex'], 'chunk': f['chunk'], 'step': f['step'], 'fail_at': f['fail_at']},
-            'scenario': {'kind': 'standin', 'input_hex': f['input_hex'], 'chunk': f['chunk'], 'step': f['step'], 'fail_at': f['fail_at'], 'check': f['check']},
+            'engine': 'standin', 'kind': 'bounded_standin', 'fn': fn,
+            'clause': '%s::%s' % (name, re.sub(r'[^A-Za-z0-9]+', '_', f['check']).strip('_')[:90]), 'tags': [prop],
+            'message': 'bounded stand-in %s: %s fails on %s: %s' % (suite, f['check'], f['input'][:300], f['detail'][:600]),
+            'rendered': json.dumps(f, indent=1)[:3000], 'clause_text': f['check'], 'site': ((path, 0), 0),
+            'counterexample': {'input': f['input'][:2000], 'replay_args': f['replay']},
+            'scenario': {'kind': 'standin', 'suite': suite, 'prop': prop, 'replay': f['replay'], 'check': f['check']},
         })
     return er
+
+
+def run_standin(prop, tier, seed):
+    from concurrent.futures import ThreadPoolExecutor
+    suites = STANDIN_FOR[prop]
+    _built()
+    with ThreadPoolExecutor(max_workers=min(len(suites), 12)) as ex:
+        return list(ex.map(lambda s: run_suite(s, prop, tier, seed), suites))
 
 
 def replay_standin(sc):
@@ -97,18 +155,22 @@ def replay_standin(sc):
     if exe is None:
         print('NOT-REPRODUCED (stand-in does not build: %s)' % msg[-300:])
         return 0
-    args = [exe, '--replay', sc['input_hex'], str(sc['chunk']), str(sc['step']), str(sc['fail_at']) if sc.get('fail_at') is not None else '-', (sc.get('check') or 'all')[:3]]
-    p = subprocess.run(args, capture_output=True, text=True, timeout=600)
+    args = [exe, '--replay', sc['suite'], sc.get('prop') or 'all'] + list(sc['replay'])
+    try:
+        p = subprocess.run(args, capture_output=True, text=True, timeout=900)
+    except subprocess.TimeoutExpired:
+        print('NOT-REPRODUCED (replay timed out)')
+        return 0
     print(p.stdout[-3000:])
     print('check that failed:', sc.get('check'))
-    print('REPRODUCED: the real parser fails the check on the recorded input' if p.returncode == 1 else 'NOT-REPRODUCED')
+    print('REPRODUCED: the real code fails the check on the recorded input' if p.returncode == 1 else 'NOT-REPRODUCED')
     return 1 if p.returncode == 1 else 0
 
 
 def run_engines(prop, tier, seed):
     out = []
     if prop in STANDIN_FOR:
-        out.append(run_standin(prop, tier, seed))
+        out.extend(run_standin(prop, tier, seed))
     for g in KANI_FOR.get(prop, []):
         r = K.run_harness_group(g)
         er = {'name': 'kani:' + g, 'kind': 'kani', 'status': r['status'], 'reason': r.get('reason', ''), 'wall_s': r.get('wall_s', 0.0),
